@@ -137,3 +137,18 @@ pub fn trace(a: &[u64]) -> Vec<u64> {
     drop(held);
     out
 }
+
+/// [k_bad, schedule...]: first a request that the library refuses (a symbol count beyond the largest block size,
+/// or any request that panics) is issued on a throwaway thread -- its panic must stay that thread's own business --
+/// then the schedule runs as in `trace`.  Output: [1 if the refused request panicked else 0, trace output...].
+pub fn trace_after_refusal(a: &[u64]) -> Vec<u64> {
+    let k_bad = a[0] as u16;
+    let refused = std::thread::spawn(move || {
+        let _ = enc::get_or_generate_plan(k_bad);
+    })
+    .join()
+    .is_err();
+    let mut out = vec![refused as u64];
+    out.extend(trace(&a[1..]));
+    out
+}
